@@ -252,14 +252,30 @@ def enum_build_contract(literal=False):
         has_parent = I.branch_free()
         n = 1 if I.branch_free() else 2
         enum = SList(["a", "b"]) if literal else SList([SStr(z3.Const(f"value{i}", z3.StringSort())) for i in range(n)])
+        # the declared default: absent, or some value; its conversion is the callee's business (contract of convert_value: C13)
+        declared = SStr(z3.Const("declared_default", z3.StringSort())) if I.branch_free() else None
+        conv = {"calls": []}
+
+        def convert_value(I2, a, k):
+            me, v = (a[0], a[1]) if len(a) > 1 else (k.get("self"), a[0] if a else k.get("value"))
+            if v is None:
+                out = None
+            elif I2.branch_free():
+                out = SOpaque("Value(converted default)", cls=object)
+            else:
+                from openapi_python_client.parser.errors import PropertyError
+                out = SObj(PropertyError, {"detail": "bad default", "level": None, "header": "", "data": None})
+            conv["calls"].append((me, v, out))
+            return out
+        I.contracts[f"{P}.{'literal_enum_property:LiteralEnumProperty' if literal else 'enum_property:EnumProperty'}.convert_value"] = convert_value
         data = SOpaque("data", attrs={"title": SStr(z3.Const("title", z3.StringSort())) if has_title else None,
-                                       "description": None, "example": None, "default": None, "enum": enum})
+                                       "description": None, "example": None, "default": declared, "enum": enum})
         config = SOpaque("config", attrs={"field_prefix": "field_"})
         kw = dict(data=data, name=SStr(z3.Const("name", z3.StringSort())), schemas=schemas0,
                   required=SBool(z3.Const("required", z3.BoolSort())),
                   parent_name=SStr(z3.Const("parent_name", z3.StringSort())) if has_parent else "", config=config)
         inputs = {"cname": cname, "consulted": cbn0, "holder": holder, "same": same, "info": info,
-                  "module_asked": info.module_asked}
+                  "module_asked": info.module_asked, "declared": declared, "conv": conv}
         return SFunc("pyfunc", klass.build.__func__, self_val=klass), [], kw, inputs
 
     base = _table_clause(None, lambda ctx: ctx.inputs["consulted"], True)
@@ -271,12 +287,29 @@ def enum_build_contract(literal=False):
             (lambda: ctx.I.must(ctx.inputs["same"]))
         return base(ctx)
 
-    clauses = [Clause("never-overwrites", clause,
+    def default_clause(ctx):
+        """the default of the returned property is the conversion of THIS schema's default (none declared: none)"""
+        i = ctx.inputs
+        res = ctx.value.items[0]
+        if not (isinstance(res, SObj) and res.cls.__name__ in ("EnumProperty", "LiteralEnumProperty")):
+            # a diagnostic: fine if the conversion of the declared default failed or another check did; nothing to say here
+            return True
+        got = res.fields.get("default")
+        if i["declared"] is None:
+            return got is None
+        mine = [out for me, v, out in i["conv"]["calls"] if v is i["declared"]]
+        return bool(mine) and got is mine[-1] and not (isinstance(got, SObj) and got.cls.__name__ == "PropertyError")
+
+    clauses = [Clause("default-is-this-schemas-default", default_clause,
+                      statement="a returned (Literal)EnumProperty carries convert_value(data.default) of THIS schema -- None when "
+                                "the schema declares no default, whatever an equal enum met earlier declared; a default whose "
+                                "conversion fails is never stored", props=["C13"]),
+               Clause("never-overwrites", clause,
                       statement="a returned (Literal)EnumProperty is registered under a class name that was absent from the table or "
                                 "held an EnumProperty with equal members (the same inline enum met twice is shared); any other "
                                 "occupant yields a PropertyError; every other entry of the table is kept; the table was asked "
                                 "(Schemas.module_name_taken) whether another class owns the module, and answered no")]
-    return FnContract(Q, [Case("registration", make, clauses, raises=(), props=["C09", "C07", "C12", "C14"])])
+    return FnContract(Q, [Case("registration", make, clauses, raises=(), props=["C09", "C07", "C12", "C14", "C13"])])
 
 
 def literal_enum_build_contract():
